@@ -55,3 +55,14 @@ Theorem c03_promised_ids_are_exactly_the_ids_created :
                ext_by_spawn w w' /\ w_rcnt w' = 0 /\ reserved_ids w' nil.
 Proof. exact reserved_ids_are_created. Qed.
 Print Assumptions c03_promised_ids_are_exactly_the_ids_created.
+
+Require Import EV.SlotMapLen.
+(* "the live-entity count always equals the entities created minus those removed": over every sequence of inserts
+   and removes from the empty slot map, len = number of occupied slots = successful insertions - successful removals
+   (i and r count the operations that succeeded) *)
+Theorem c03_live_count_is_created_minus_removed :
+  forall (V : Type) (ops : list (@sm_op V)),
+    let '(m, i, r) := fold_left sm_stepc ops (sm_empty, 0, 0) in
+    SmInv m /\ LenInv m /\ sm_len m + r = i.
+Proof. exact @sm_len_counts. Qed.
+Print Assumptions c03_live_count_is_created_minus_removed.
